@@ -5,6 +5,7 @@
 import MelModel.Chain
 import MelModel.Lemmas.Faucet
 namespace Mel
+open Mel.FaucetL
 
 /-- the de-duplication marker of a faucet transaction -/
 def markerOf (env : Env) (tx : Tx) : CoinID := { txhash := env.fdp tx.hash, index := 0 }
